@@ -382,6 +382,13 @@ def installed(obs: Observer) -> Iterator[None]:
     orig_exec = execution.execute_handlers_once
     depth: contextvars.ContextVar[int] = contextvars.ContextVar("verif_exec_depth", default=0)
 
+    def _safe_match(h: Any, cause: Any) -> bool:
+        from kopf._core.intents import registries as _reg
+        try:
+            return bool(_reg.match(handler=h, cause=cause))
+        except Exception:
+            return False
+
     def _fetch_all(storage: Any, body: Any, ids: Any) -> dict:
         out = {}
         for i in ids:
@@ -404,6 +411,9 @@ def installed(obs: Observer) -> Iterator[None]:
         P.update(_fetch_all(storage, cause.body, subs))
         info = {"reason": cause.reason.value, "owned": [str(h.id) for h in owned], "selected": [str(h.id) for h in selected],
                 "limits": {str(h.id): [None if h.timeout is None else to_ticks(h.timeout), h.retries] for h in owned},
+                "matched": [str(h.id) for h in owned if _safe_match(h, cause)],
+                "decls": [{"id": str(h.id), "gate": {"reason": h.reason.value if h.reason is not None else None,
+                                                     "initial": bool(h.initial), "deleted": bool(h.deleted)}} for h in owned],
                 "P": P, "now": to_ticks(sim.now()), "outcomes": None, "now1": None, "storage": storage,
                 "body": cause.body}
         rec["pcc"] = info
